@@ -33,6 +33,8 @@ package path
 //@   ensures {C16,C03} drops-last-element: forall p string, e string :: path == p + "/" + e && !contains(e, "/") && p != "" ==> r == p
 //@   ensures {C16,C03} root-has-no-parent: !contains(substr(path, 1, len(path)), "/") ==> r == ""
 //@   ensures {C16,C03} parent-is-proper-prefix: r != "" ==> hasPrefix(path, r + "/") && !contains(substr(path, len(r) + 1, len(path)), "/")
+//@   use parent-is-longest-slashPrefix, parent-is-slashPrefix, no-parent-no-slashPrefix
+//@   ensures {C03} parent-is-longest-chain-ancestor: (r != "" ==> slashPrefix(path, r) && (forall t string :: slashPrefix(path, t) ==> len(t) <= len(r))) && (r == "" ==> (forall t string :: !slashPrefix(path, t)))
 
 //@ func IsDescendantPath(path, ancestor) (r)
 //@   props C03
